@@ -257,7 +257,7 @@ Definition res_tree (r : res) : tree := match r with Ok i => TL [TI 0; TI i] | E
 
 Definition run (fn : Z) (i : tree) : tree :=
   match fn with
-  | 1 =>
+  | 1 | 6 =>     (* fn 6: the same for the decimal as it comes back from its wire form (DECN / NUMN) *)
       let p := t_int (t_nth 0 i) in let s := t_int (t_nth 1 i) in let v := t_int (t_nth 2 i) in
       if sanity p s then
         let txt := dec_string p s v in
@@ -293,7 +293,7 @@ Definition run (fn : Z) (i : tree) : tree :=
 
 Definition spec (fn : Z) (i o : tree) : bool :=
   match fn with
-  | 1 =>
+  | 1 | 6 =>     (* fn 6: the same for the decimal as it comes back from its wire form (DECN / NUMN) *)
       let p := t_int (t_nth 0 i) in let s := t_int (t_nth 1 i) in let v := t_int (t_nth 2 i) in
       if valid_ps p s then
         match o with
